@@ -78,10 +78,10 @@ def run(ctx):
         os.remove(dot)
         xs = torch.tensor([0.0, 0.5, 1.5, 2.0, 3.5], dtype=DT)
         for st in snodes.values():
-            rank, dim, keepdim, mismatch, pred = int(st["rank"]), int(st["dim"]), bool(st["keepdim"]), bool(st["mismatch"]), st["pred"]
+            rank, dim, keepdim, mismatch, pred = int(st["rank"]), int(st["dim"]), bool(st["keepdim"]), str(st["mismatch"]), st["pred"]
             unit = int(st["unit"])
             pos = dim + rank if dim < 0 else dim
-            shape = [(6 if mismatch else 5) if k == pos else (1 if k + 1 == unit else k + 2) for k in range(rank)]
+            shape = [{"none": 5, "longer": 6, "shorter": 4, "one": 1}[mismatch] if k == pos else (1 if k + 1 == unit else k + 2) for k in range(rank)]
             for method in ("trapz", "simpson", "cspline"):
                 n += 1
                 ctx.case(key=("shape", rank, dim, keepdim, mismatch, unit, method))
@@ -89,11 +89,18 @@ def run(ctx):
                 sq = xitorch.integrate.SQuad(xs, method=method)
                 why = None
                 try:
-                    cs = sq.cumsum(y, dim=dim)
-                    it = sq.integrate(y, dim=dim, keepdim=keepdim)
                     if not pred["ok"]:
-                        why = "a y of length %d along dim accepted for %d sample positions" % (shape[pos], 5)
+                        # each entry point on its own: a wrong length must be rejected by both
+                        for nm_, fn_ in (("cumsum", lambda: sq.cumsum(y, dim=dim)), ("integrate", lambda: sq.integrate(y, dim=dim, keepdim=keepdim))):
+                            try:
+                                r_ = fn_()
+                                why = "%s accepted a y of length %d along dim for %d sample positions (result shape %s)" % (nm_, shape[pos], 5, list(r_.shape))
+                                break
+                            except (RuntimeError, ValueError, IndexError, AssertionError):
+                                pass
                     else:
+                        cs = sq.cumsum(y, dim=dim)
+                        it = sq.integrate(y, dim=dim, keepdim=keepdim)
                         if list(cs.shape) != list(pred["cumsum"]):
                             why = "cumsum shape %s, specification %s" % (list(cs.shape), list(pred["cumsum"]))
                         elif list(it.shape) != list(pred["integrate"]):
